@@ -94,6 +94,30 @@ NEEDS = {
     "C19D": "reference units barely longer than the segment precision and split=True",
     "C20C": "-b 0 with -d levenshtein/numerical and -c or -k",
     "C20D": ">= 2 different input files with -k and -o or -j",
+    # ---- third round (told about both earlier rounds; asked for arithmetic / boundary / option-interaction / timing faults, no more stale caches)
+    "C02E": "the earlier-named annotator owns a far short unit followed by a within-reach long unit (or alpha = 0 with a later unit of the same category)",
+    "C02F": "0 < delta_empty <= 1.19e-7 (float32 eps)",
+    "C03E": "fast path and a window whose best alignment has every unitary alignment ending past the limit (fallback)",
+    "C03F": "soft path with delta_empty != 1 (costs array divided in place)",
+    "C05E": "n_samples == 1 together with a precision level",
+    "C05F": "the named level 'low' and a chance CV large enough for a second batch (table says 0.1, the docstring 5 %: both are accepted by the check, see section 10)",
+    "C06E": "shuffle sampler on a crowded continuum (annotators x mean unit length >= length: fallback pivot) and a repetition in one process",
+    "C06F": "gamma-cat / gamma-k compared across worker counts with n_samples not a multiple of ceil(n_samples / workers)",
+    "C07E": "number of combinations under the cut, all-empty included, an exact multiple of 10000",
+    "C07F": ">= 3 annotators of which >= 2 have no unit",
+    "C10E": "a window covering the whole continuum on a continuum where windowing is harmful (partner nested behind a very long unit)",
+    "C13E": "an annotator without units on the receiver, then copy() / out-of-place merge / +",
+    "C13F": "removing a unit whose label is None",
+    "C14E": "a fully unlabelled continuum given to the statistical sampler",
+    "C14F": "an exception in the middle of a fast alignment (a category missing from the dissimilarity's table appearing late)",
+    "C15E": "a reference in which an annotator has a unit nested inside an earlier, longer unit",
+    "C15F": "a reference with an annotator that has no unit",
+    "C16E": "integer pivots and a pivot landing exactly on the end of an available segment (whole-number upper bound), then a later pivot nearby",
+    "C16F": "two interleaved draws from one sampler object (two threads sharing it)",
+    "C19E": "category names of different lengths, false negatives + category shuffle at high magnitude",
+    "C19F": "a one-unit reference, false_pos=True and magnitude exactly 1.0",
+    "C20E": ">= 2 different files in one run, the later one finishing parsing first (thread timing)",
+    "C20F": "-k without -c together with -o or -j",
 }
 EXTRA_CHECKS = {"C09B": ["C04", "C02"], "C04B": ["C14"], "C10A": ["C01"], "C14B": ["C13"], "C01B": ["C08"], "C08A": ["C01"],
                 "C04D": ["C02", "C07"], "C07C": ["C02"], "C09C": ["C07"], "C09D": ["C02"], "C14D": ["C13"], "C13C": ["C14"], "C18C": ["C13"]}
